@@ -91,6 +91,7 @@ def run(chk):
     for f in (sf_write, SFile_open, SFile_write, Rec_open, Rec_write):
         chk.analysed_unit(f.qualname)
 
+    _note_lib_names(sf_write.module, Rec_write.module)
     decls = cfront.load_tu("records")
     cfun = cfront.functions(decls)
     for nm in ("Records::Records", "Records::Write", "Records::update_row_count",
@@ -3129,6 +3130,96 @@ def _c_measure(text):
     return None
 
 
+# -- the array an expression is a same-shaped view / copy / layout conversion of ------------------------------------------
+# local name -> dotted import target, for the modules whose row-count expressions are judged (filled in by run()); a name
+# bound differently in two of them is dropped (not resolved)
+_LIB_NAMES = {}
+
+# numpy functions that return their first argument's elements in the same shape (a new array, or the argument itself):
+# {name: names of the positional parameters}.  Options that only pick memory layout / copy-or-not / subclass are harmless;
+# dtype= (may fail or repack) and ndmin= (changes the shape) are not accepted.
+_SAME_SHAPE_FUNCS = {
+    "array": ("object", "dtype"), "asarray": ("a", "dtype", "order"), "asanyarray": ("a", "dtype", "order"),
+    "ascontiguousarray": ("a", "dtype"), "asfortranarray": ("a", "dtype"), "require": ("a", "dtype", "requirements"),
+    "copy": ("a", "order", "subok"),
+}
+_LAYOUT_ONLY_OPTIONS = {"copy", "order", "subok", "like", "requirements", "device"}
+
+
+def _note_lib_names(*mods):
+    seen = {}
+    for m in mods:
+        for k, v in (m.imports if m is not None else {}).items():
+            seen.setdefault(k, set()).add(v)
+    _LIB_NAMES.clear()
+    _LIB_NAMES.update({k: next(iter(v)) for k, v in seen.items() if len(v) == 1})
+
+
+def _lib_callee(func):
+    """'numpy.array', 'copy.deepcopy', ... for a callee written through the module's imports (`np.array`, `array` after
+    `from numpy import array`); None when the head of the dotted name is not an imported library name"""
+    d = dotted_name(func)
+    if not d:
+        return None
+    parts = d.split(".")
+    head = _LIB_NAMES.get(parts[0])
+    if head is None and parts[0] in ("numpy", "np") and parts[0] not in _LIB_NAMES:
+        head = "numpy"
+    if head is None:
+        return None
+    return ".".join([head] + parts[1:])
+
+
+def _same_shape_source(e):
+    """strip from an array expression everything that hands on the same elements in the same shape: .view(...) / .copy(...) /
+    .__copy__() / .__deepcopy__(memo), whole-array slices x[:] / x[...], numpy.array / asarray / asanyarray /
+    ascontiguousarray / asfortranarray / require / copy of it with layout-only options, copy.copy / copy.deepcopy of it"""
+    while True:
+        if isinstance(e, ast.Subscript):
+            sl = e.slice
+            whole = (isinstance(sl, ast.Slice) and sl.lower is None and sl.upper is None and (sl.step is None or const_value(sl.step) == 1)) \
+                or (isinstance(sl, ast.Constant) and sl.value is Ellipsis)
+            if not whole:
+                return e
+            e = e.value
+            continue
+        if not isinstance(e, ast.Call):
+            return e
+        lib = _lib_callee(e.func)
+        if lib is not None:
+            mod, _, fn = lib.rpartition(".")
+            if any(isinstance(a, ast.Starred) for a in e.args) or any(k.arg is None for k in e.keywords):
+                return e
+            if mod == "copy" and fn in ("copy", "deepcopy") and len(e.args) == 1 and not e.keywords:
+                e = e.args[0]
+                continue
+            if mod == "numpy" and fn in _SAME_SHAPE_FUNCS:
+                names = _SAME_SHAPE_FUNCS[fn]
+                if len(e.args) > len(names):
+                    return e
+                bound = dict(zip(names, e.args))
+                for k in e.keywords:
+                    if k.arg in bound:
+                        return e
+                    bound[k.arg] = k.value
+                src = bound.pop(names[0], None)
+                dt = bound.pop("dtype", None)
+                if src is None or set(bound) - _LAYOUT_ONLY_OPTIONS:
+                    return e
+                if dt is not None and not (isinstance(dt, ast.Constant) and dt.value is None) \
+                        and not (isinstance(dt, ast.Attribute) and dt.attr == "dtype"
+                                 and norm(_same_shape_source(dt.value)) == norm(_same_shape_source(src))):
+                    return e            # a conversion to another type: not judged here
+                e = src
+                continue
+            return e
+        if isinstance(e.func, ast.Attribute):
+            if e.func.attr in ("view", "copy", "__copy__", "__deepcopy__"):
+                e = e.func.value
+                continue
+        return e
+
+
 def _py_measure(e, param="data"):
     """'size' for <chunk>.size, 'dim0' for len(<chunk>) / <chunk>.shape[0] (chunk: the parameter or a view / copy of it)"""
     kind = None
@@ -3138,13 +3229,7 @@ def _py_measure(e, param="data"):
         kind, e = "dim0", e.args[0]
     elif isinstance(e, ast.Subscript) and const_value(e.slice) == 0 and isinstance(e.value, ast.Attribute) and e.value.attr == "shape":
         kind, e = "dim0", e.value.value
-    while isinstance(e, ast.Call) and isinstance(e.func, ast.Attribute):
-        if e.func.attr in ("view", "copy"):
-            e = e.func.value
-        elif e.func.attr in ("ascontiguousarray", "asarray", "asanyarray", "require") and len(e.args) == 1 and not any(k.arg == "dtype" for k in e.keywords):
-            e = e.args[0]        # same elements in the same shape
-        else:
-            break
+    e = _same_shape_source(e)
     return kind if isinstance(e, ast.Name) and e.id == param else None
 
 
@@ -3505,13 +3590,7 @@ def _chunk_len(x, param="data"):
         e = x.args[0]
     elif isinstance(x, ast.Subscript) and const_value(x.slice) == 0 and isinstance(x.value, ast.Attribute) and x.value.attr == "shape":
         e = x.value.value
-    while isinstance(e, ast.Call) and isinstance(e.func, ast.Attribute):
-        if e.func.attr in ("view", "copy"):
-            e = e.func.value
-        elif e.func.attr in ("ascontiguousarray", "asarray", "asanyarray", "require") and len(e.args) == 1 and not any(k.arg == "dtype" for k in e.keywords):
-            e = e.args[0]        # numpy functions that keep every element: the size is the operand's
-        else:
-            break
+    e = _same_shape_source(e)
     return isinstance(e, ast.Name) and e.id == param
 
 
